@@ -310,8 +310,8 @@ Definition k_VERSION : str := Eval vm_compute in bs "VERSION".
 Definition nth_param (e : event) (i : nat) : str := nth i (e_params e) [].
 Definition last_of (e : event) : str := last (e_params e) [].
 
-Definition ref_apply (r0 : ref) (e : event) : ref :=
-  let r := ref_tag r0 e in
+(* the meaning of the command itself *)
+Definition ref_cmd (r : ref) (e : event) : ref :=
   let ps := e_params e in
   if cmdb e c_001 then match ps with p0 :: _ => r_set_me r p0 | [] => r end
   else if cmdb e c_JOIN then
@@ -367,6 +367,8 @@ Definition ref_apply (r0 : ref) (e : event) : ref :=
   else if cmdb e c_372 then r_set_motd r ((match r_motd r with [] => [] | m => m ++ [10] end) ++ last_of e)
   else r.
 
+(* a tagged message first tells its sender's account, then what its command says *)
+Definition ref_apply (r : ref) (e : event) : ref := ref_cmd (ref_tag r e) e.
 Definition ref_step (r : ref) (e : event) : ref := ref_gc (ref_apply r e).
 Definition ref_run (h : list event) : ref := fold_left ref_step h ref_init.
 
@@ -442,93 +444,97 @@ Definition ok_hopreal (s : str) : bool :=
       end
   end.
 
-Definition conformant (r : ref) (e : event) : bool :=
+(* an account tag describes a sender we know, or accompanies the same account in an extended JOIN *)
+Definition tag_ok (r : ref) (e : event) : bool :=
+  match e_src e, e_account_tag e with
+  | Some src, Some a => tracked_user r (s_name src) || (cmdb e c_JOIN && streqb (nth_param e 1) a)
+  | None, Some _ => false
+  | _, None => true
+  end.
+
+Definition cmd_ok (r : ref) (e : event) : bool :=
   let ps := e_params e in
-  (* an account tag describes a sender we know, or accompanies the same account in an extended JOIN *)
-  (match e_src e, e_account_tag e with
-   | Some src, Some a =>
-       tracked_user r (s_name src) || (cmdb e c_JOIN && streqb (nth_param e 1) a)
-   | None, Some _ => false
-   | _, None => true
-   end) &&
-  (if cmdb e c_001 then
-     is_nil (r_me r) && match ps with p0 :: _ => is_valid_nick p0 | [] => false end
-   else
-     negb (is_nil (r_me r)) &&
-     (if cmdb e c_JOIN then
-        match e_src e, ps with
-        | Some src, chan :: rest =>
-            is_valid_channel chan && is_valid_nick (s_name src) && consistent_user r src &&
-            (if is_me r (s_name src) then negb (tracked_chan r chan)
-             else tracked_chan r chan && negb (member_of r chan (s_name src))) &&
-            (* account-notify keeps the account current: "*" is only shown for a user not logged in *)
-            match rest, alookup (key (s_name src)) (r_users r) with
-            | acct :: _, Some u => negb (streqb acct [42]) || is_nil (ru_account u)
-            | _, _ => true
-            end
-        | _, _ => false
-        end
-      else if cmdb e c_PART then
-        match e_src e, ps with
-        | Some src, chan :: _ => negb (is_nil chan) && member_of r chan (s_name src)
-        | _, _ => false
-        end
-      else if cmdb e c_KICK then
-        match ps with
-        | chan :: nick :: _ => negb (is_nil chan) && member_of r chan nick
-        | _ => false
-        end
-      else if cmdb e c_QUIT then
-        match e_src e with Some src => negb (is_me r (s_name src)) | None => false end
-      else if cmdb e c_NICK then
-        match e_src e, ps with
-        | Some src, _ :: _ =>
-            let new := last_of e in
-            is_valid_nick new &&
-            (streqb (key new) (key (s_name src)) ||
-             (negb (tracked_user r new) && negb (is_me r new)))
-        | _, _ => false
-        end
-      else if cmdb e c_353 then
-        match ps with
-        | [_; _; chan; names] => tracked_chan r chan && ok_entries r chan (split_byte 32 names)
-        | _ => false
-        end
-      else if cmdb e c_MODE then
-        match ps with
-        | target :: flags :: args =>
-            if tracked_chan r target then
-              is_valid_channel target && ok_modes r target (ref_chanmodes r) (ref_prefix_modes r) false flags args true
-            else true
-        | _ => false
-        end
-      else if cmdb e c_324 then
-        match ps with
-        | _ :: target :: flags :: args =>
-            if tracked_chan r target then
-              is_valid_channel target && ok_modes r target (ref_chanmodes r) (ref_prefix_modes r) true flags args true
-            else true
-        | _ => false
-        end
-      else if cmdb e c_TOPIC then match ps with [_; _] => true | _ => false end
-      else if cmdb e c_332 then match ps with [_; _; _] => true | _ => false end
-      else if cmdb e c_352 then
-        match ps with [_; _; _; _; _; _; _; hr] => ok_hopreal hr | _ => false end
-      else if cmdb e c_354 then
-        match ps with [_; q; _; _; _; _; _; _] => streqb q [49] | _ => false end
-      else if cmdb e c_AWAY then is_some (e_src e)
-      else if cmdb e c_ACCOUNT then
-        is_some (e_src e) && match ps with [_] => true | _ => false end
-      else if cmdb e c_CHGHOST then
-        is_some (e_src e) && match ps with [_; _] => true | _ => false end
-      else if cmdb e c_004 then Nat.leb 3 (length ps)
-      else if cmdb e c_005 then
-        match ps with
-        | _ :: toks => Nat.leb 2 (length ps) && suffixb this_server_text (last_of e)
-                       && forallb (ok_token r) (removelast toks)
-        | [] => false
-        end
-      else true)).
+  if cmdb e c_001 then
+    is_nil (r_me r) && match ps with p0 :: _ => is_valid_nick p0 | [] => false end
+  else
+    negb (is_nil (r_me r)) &&
+    (if cmdb e c_JOIN then
+       match e_src e, ps with
+       | Some src, chan :: rest =>
+           is_valid_channel chan && is_valid_nick (s_name src) && consistent_user r src &&
+           (if is_me r (s_name src) then negb (tracked_chan r chan)
+            else tracked_chan r chan && negb (member_of r chan (s_name src))) &&
+           (* account-notify keeps the account current: "*" is only shown for a user not logged in *)
+           match rest, alookup (key (s_name src)) (r_users r) with
+           | acct :: _, Some u => negb (streqb acct [42]) || is_nil (ru_account u)
+           | _, _ => true
+           end
+       | _, _ => false
+       end
+     else if cmdb e c_PART then
+       match e_src e, ps with
+       | Some src, chan :: _ => negb (is_nil chan) && member_of r chan (s_name src)
+       | _, _ => false
+       end
+     else if cmdb e c_KICK then
+       match ps with
+       | chan :: nick :: _ => negb (is_nil chan) && member_of r chan nick
+       | _ => false
+       end
+     else if cmdb e c_QUIT then
+       match e_src e with Some src => negb (is_me r (s_name src)) | None => false end
+     else if cmdb e c_NICK then
+       match e_src e, ps with
+       | Some src, _ :: _ =>
+           let new := last_of e in
+           is_valid_nick new &&
+           (streqb (key new) (key (s_name src)) ||
+            (negb (tracked_user r new) && negb (is_me r new)))
+       | _, _ => false
+       end
+     else if cmdb e c_353 then
+       match ps with
+       | [_; _; chan; names] => tracked_chan r chan && ok_entries r chan (split_byte 32 names)
+       | _ => false
+       end
+     else if cmdb e c_MODE then
+       match ps with
+       | target :: flags :: args =>
+           if tracked_chan r target then
+             is_valid_channel target && ok_modes r target (ref_chanmodes r) (ref_prefix_modes r) false flags args true
+           else true
+       | _ => false
+       end
+     else if cmdb e c_324 then
+       match ps with
+       | _ :: target :: flags :: args =>
+           if tracked_chan r target then
+             is_valid_channel target && ok_modes r target (ref_chanmodes r) (ref_prefix_modes r) true flags args true
+           else true
+       | _ => false
+       end
+     else if cmdb e c_TOPIC then match ps with [_; _] => true | _ => false end
+     else if cmdb e c_332 then match ps with [_; _; _] => true | _ => false end
+     else if cmdb e c_352 then
+       match ps with [_; _; _; _; _; _; _; hr] => ok_hopreal hr | _ => false end
+     else if cmdb e c_354 then
+       match ps with [_; q; _; _; _; _; _; _] => streqb q [49] | _ => false end
+     else if cmdb e c_AWAY then is_some (e_src e)
+     else if cmdb e c_ACCOUNT then
+       is_some (e_src e) && match ps with [_] => true | _ => false end
+     else if cmdb e c_CHGHOST then
+       is_some (e_src e) && match ps with [_; _] => true | _ => false end
+     else if cmdb e c_004 then Nat.leb 3 (length ps)
+     else if cmdb e c_005 then
+       match ps with
+       | _ :: toks => Nat.leb 2 (length ps) && suffixb this_server_text (last_of e)
+                      && forallb (ok_token r) (removelast toks)
+       | [] => false
+       end
+     else true).
+
+(* the account tag is read first; the command must make sense in the told-state after it *)
+Definition conformant (r : ref) (e : event) : bool := tag_ok r e && cmd_ok (ref_tag r e) e.
 
 (* a history is conformant when each message is, in the told-state reached before it *)
 Fixpoint conformant_from (r : ref) (h : list event) : bool :=
